@@ -1,5 +1,5 @@
 (* C02 -- Unsolvable iff no solution exists. *)
-From Resolvo Require Import Spec.Oracle.
+From Resolvo Require Import Spec.Oracle Cdcl.CheckRun.
 
 (* the independent reference decision procedure is sound and complete *)
 Theorem C02_reference_correct : forall u P,
@@ -7,3 +7,32 @@ Theorem C02_reference_correct : forall u P,
 Proof. exact o_solvable_spec. Qed.
 Check C02_reference_correct : forall u P,
   o_solvable u P = true <-> exists S, valid (table_provider u) P S [].
+
+(* E1, for every provider: every valid selection satisfies every clause the
+   encoder may add *)
+Theorem C02_facts_hold : forall U P idx, WF U -> forall S c,
+  valid U P S [] -> factb U P idx c = true -> cl_true (a_sel U idx S) (cl_lits c) = true.
+Proof. exact E1. Qed.
+
+(* reverse unit propagation is a sound entailment check (certifies learnt clauses) *)
+Theorem C02_rup_sound : forall F c, rup F c = true -> entails F c.
+Proof. exact rup_sound. Qed.
+
+(* a clause database made of facts and RUP-certified learnt clauses that
+   propagates to a conflict from the root alone refutes the problem *)
+Theorem C02_refutation_sound : forall U P, WF U -> forall db,
+  check_unsat U P db = true -> ~ solvable U P.
+Proof. exact check_unsat_sound. Qed.
+
+(* trace inclusion: an accepted Unsolvable log means no valid selection exists *)
+Theorem C02_trace_no_false_unsat : forall u P lg,
+  check_unsat_log u P lg = true -> ~ solvable (table_provider u) P.
+Proof. exact unsat_log_sound. Qed.
+Check C02_trace_no_false_unsat : forall u P lg,
+  check_unsat_log u P lg = true -> ~ solvable (table_provider u) P.
+
+(* ... hence a solvable problem is never (acceptably) reported Unsolvable; with
+   C01 every run that ends on a solvable problem ends in a valid solution *)
+Theorem C02_solvable_not_refuted : forall u P lg,
+  solvable (table_provider u) P -> check_unsat_log u P lg = false.
+Proof. exact solvable_not_refuted. Qed.
